@@ -208,4 +208,176 @@ theorem text_scroll_exact (c : VgaText.Cons) (fb : Array UInt16) (ok : TextOk c 
         refine ⟨fb, rfl, rfl, fun i _ => ?_⟩
         simp only [textScroll, if_pos hv, if_neg hd0, if_neg hd1]
 
+
+/-! ## pixel console -/
+
+/-- domain of the pixel-console theorems: a supported depth, a font with non-empty glyphs selected
+with `SetFont` after the logo (if any), a grid with at least one cell, `pitch ≥` the visible row
+bytes, a framebuffer of `height*pitch` bytes (as `DriverInit` maps it) that — with one row of
+slack — fits 32 bits, and the full 256-entry palette. -/
+structure PixOk (c : VesaFb.Cons) (f : VesaFb.Font) (fb : Array UInt8) : Prop where
+  font : c.font = some f
+  bpp : c.bpp = 8 ∨ c.bpp = 15 ∨ c.bpp = 16 ∨ c.bpp = 24 ∨ c.bpp = 32
+  bytes : c.bytesPerPixel = VesaFb.bytesPerPixelOf c.bpp
+  gw1 : 1 ≤ f.gw
+  gh1 : 1 ≤ f.gh
+  cols : c.cols = c.width / f.gw
+  rows : c.rows = (c.height - c.offsetY) / f.gh
+  logo : c.offsetY ≤ c.height
+  cols1 : 1 ≤ c.cols
+  rows1 : 1 ≤ c.rows
+  pitch : c.width * c.bytesPerPixel ≤ c.pitch
+  small : (c.height + 1) * c.pitch + 4 < 4294967296
+  size : fb.size = c.height * c.pitch
+  pal : c.palette.size = 256
+
+private theorem getD_eq8 (fb : Array UInt8) (i : Nat) : view8 fb i = fb[i]?.getD 0 := by
+  simp [view8, Array.getD_eq_getD_getElem?]
+
+private theorem view8_eq (fb : Array UInt8) : view8 fb = fun j => fb.getD j 0 := rfl
+
+private theorem bytes_cases {c : VesaFb.Cons} {f : VesaFb.Font} {fb : Array UInt8} (ok : PixOk c f fb) :
+    (c.bpp = 8 ∧ c.bytesPerPixel = 1) ∨ (c.bpp = 15 ∧ c.bytesPerPixel = 2) ∨ (c.bpp = 16 ∧ c.bytesPerPixel = 2) ∨
+    (c.bpp = 24 ∧ c.bytesPerPixel = 3) ∨ (c.bpp = 32 ∧ c.bytesPerPixel = 4) := by
+  have hb := ok.bytes
+  rcases ok.bpp with h | h | h | h | h <;> rw [h] at hb <;> simp [h, hb, VesaFb.bytesPerPixelOf]
+
+/-- the packed colour of a palette index: 1, 2 or 3 bytes, never more than a pixel -/
+private theorem pixelBytes_ok {c : VesaFb.Cons} {f : VesaFb.Font} {fb : Array UInt8} (ok : PixOk c f fb)
+    (idx : Nat) (hidx : idx < 256) :
+    ∃ comp, VesaFb.pixelBytes c idx = some (some comp) ∧ colorBytes c idx = comp ∧
+      comp.length ≤ c.bytesPerPixel := by
+  have hp : ∃ rgb, c.palette[idx]? = some rgb := by
+    have : idx < c.palette.size := by rw [ok.pal]; exact hidx
+    exact ⟨_, Array.getElem?_eq_getElem this⟩
+  obtain ⟨rgb, hrgb⟩ := hp
+  rcases bytes_cases ok with h | h | h | h | h
+  all_goals
+    obtain ⟨h1, h2⟩ := h
+    simp [VesaFb.pixelBytes, colorBytes, VesaFb.packColor16, VesaFb.packColor24, h1, h2, hrgb]
+
+private theorem pix_clip_eq {w n cx : Nat} (hc : 1 ≤ cx ∧ cx ≤ n) (hn : n < 4294967296) :
+    VesaFb.clipExtent w n cx = min w (n - cx + 1) := by
+  unfold VesaFb.clipExtent add32 sub32; split <;> omega
+
+/-- geometry facts used by all pixel theorems -/
+private theorem geom {c : VesaFb.Cons} {f : VesaFb.Font} {fb : Array UInt8} (ok : PixOk c f fb) :
+    c.cols * f.gw ≤ c.width ∧ c.offsetY + c.rows * f.gh ≤ c.height ∧ 1 ≤ c.bytesPerPixel ∧ c.bytesPerPixel ≤ 4 ∧
+    c.width ≤ c.pitch ∧ c.height * c.pitch + c.pitch + 4 < 4294967296 ∧ 1 ≤ c.pitch ∧ c.height ≤ c.height * c.pitch := by
+  have h1 : c.cols * f.gw ≤ c.width := by rw [ok.cols]; exact Nat.div_mul_le_self _ _
+  have h2 : c.rows * f.gh ≤ c.height - c.offsetY := by rw [ok.rows]; exact Nat.div_mul_le_self _ _
+  have h3 : 1 ≤ c.bytesPerPixel ∧ c.bytesPerPixel ≤ 4 := by rcases bytes_cases ok with h | h | h | h | h <;> omega
+  have h4 : c.width ≤ c.width * c.bytesPerPixel := Nat.le_mul_of_pos_right _ h3.1
+  have h5 : (c.height + 1) * c.pitch = c.height * c.pitch + c.pitch := by rw [Nat.add_mul]; omega
+  have h6 : 1 ≤ c.cols * f.gw := Nat.mul_pos ok.cols1 ok.gw1
+  have h7 : 1 ≤ c.pitch := by have := ok.pitch; omega
+  have h8 : c.height ≤ c.height * c.pitch := Nat.le_mul_of_pos_right _ h7
+  have := ok.small; have := ok.logo; have := ok.pitch
+  omega
+
+/-- painting a rectangle of whole cells with one colour (shared by `pix_fill_clip`) -/
+private theorem pix_fill_aux {c : VesaFb.Cons} {f : VesaFb.Font} {fb : Array UInt8} (ok : PixOk c f fb)
+    (comp : List UInt8) (hcomp : comp.length ≤ c.bytesPerPixel)
+    (cx cy w h : Nat) (rx : 1 ≤ cx ∧ cx - 1 + w ≤ c.cols) (ry : 1 ≤ cy ∧ cy - 1 + h ≤ c.rows) :
+    ∃ fb', VesaFb.fillRows comp c.bytesPerPixel c.pitch (mul32 w f.gw * c.bytesPerPixel) fb
+        (VesaFb.fbOffset c (mul32 (sub32 cx 1) f.gw) (mul32 (sub32 cy 1) f.gh)) (mul32 h f.gh) = some fb' ∧
+      fb'.size = fb.size ∧
+      ∀ i, i < fb.size → view8 fb' i =
+        paint c (view8 fb) ((cx - 1) * f.gw) ((cx - 1 + w) * f.gw) (c.offsetY + (cy - 1) * f.gh)
+          (c.offsetY + (cy - 1 + h) * f.gh) (fun _ _ => comp) i := by
+  obtain ⟨g1, g2, g3, g4, g5, g6, g7, g8⟩ := geom ok
+  have hsize := ok.size
+  have hpitch := ok.pitch
+  have hcc : c.cols ≤ c.cols * f.gw := Nat.le_mul_of_pos_right _ ok.gw1
+  have hrr : c.rows ≤ c.rows * f.gh := Nat.le_mul_of_pos_right _ ok.gh1
+  -- products that stay small
+  have hxw : (cx - 1 + w) * f.gw ≤ c.cols * f.gw := Nat.mul_le_mul_right _ rx.2
+  have hyh : (cy - 1 + h) * f.gh ≤ c.rows * f.gh := Nat.mul_le_mul_right _ ry.2
+  rw [Nat.add_mul] at hxw hyh
+  have hpX : mul32 (sub32 cx 1) f.gw = (cx - 1) * f.gw := by
+    have : sub32 cx 1 = cx - 1 := by unfold sub32; omega
+    rw [this]; unfold mul32; omega
+  have hpY : mul32 (sub32 cy 1) f.gh = (cy - 1) * f.gh := by
+    have : sub32 cy 1 = cy - 1 := by unfold sub32; omega
+    rw [this]; unfold mul32; omega
+  have hpW : mul32 w f.gw = w * f.gw := by unfold mul32; omega
+  have hpH : mul32 h f.gh = h * f.gh := by unfold mul32; omega
+  rw [hpX, hpY, hpW, hpH]
+  -- row bytes
+  have hrowb : ((cx - 1) * f.gw + w * f.gw) * c.bytesPerPixel ≤ c.width * c.bytesPerPixel :=
+    Nat.mul_le_mul_right _ (by omega)
+  rw [Nat.add_mul] at hrowb
+  have hR : ((cy - 1) * f.gh + c.offsetY + h * f.gh) * c.pitch ≤ c.height * c.pitch :=
+    Nat.mul_le_mul_right _ (by omega)
+  have hR0 : ((cy - 1) * f.gh + c.offsetY) * c.pitch ≤ ((cy - 1) * f.gh + c.offsetY + h * f.gh) * c.pitch :=
+    Nat.mul_le_mul_right _ (by omega)
+  have hoff : VesaFb.fbOffset c ((cx - 1) * f.gw) ((cy - 1) * f.gh) =
+      ((cy - 1) * f.gh + c.offsetY) * c.pitch + (cx - 1) * f.gw * c.bytesPerPixel := by
+    unfold VesaFb.fbOffset add32 mul32
+    have e1 : ((cy - 1) * f.gh + c.offsetY) % 4294967296 = (cy - 1) * f.gh + c.offsetY := by omega
+    rw [e1]
+    have ha : ((cy - 1) * f.gh + c.offsetY) * c.pitch % 4294967296 = ((cy - 1) * f.gh + c.offsetY) * c.pitch := by omega
+    have hb : (cx - 1) * f.gw * c.bytesPerPixel % 4294967296 = (cx - 1) * f.gw * c.bytesPerPixel := by omega
+    rw [ha, hb]; omega
+  rw [hoff]
+  rw [vesa_fillRows_eq comp c.bytesPerPixel c.pitch (w * f.gw) ((cx - 1) * f.gw * c.bytesPerPixel) g3 hcomp (by omega)
+    (h * f.gh) fb ((cy - 1) * f.gh + c.offsetY) 0 (by omega) (by omega)]
+  obtain ⟨fb', k1, k2, k3⟩ := rowsF_spec (fun _ _ => comp) c.bytesPerPixel comp.length c.pitch (w * f.gw)
+    ((cx - 1) * f.gw * c.bytesPerPixel) (fun _ _ => rfl) hcomp g3 (by omega) (h * f.gh) fb
+    ((cy - 1) * f.gh + c.offsetY) 0 (by omega) (by omega)
+  refine ⟨fb', k1, k2, fun i _ => ?_⟩
+  rw [getD_eq8, k3, view8_eq]
+  have hb := paint_bridge c fb comp.length ((cx - 1) * f.gw) (w * f.gw) ((cy - 1) * f.gh + c.offsetY) (h * f.gh)
+    (fun _ _ => comp) (fun _ _ => rfl) g3 i
+  rw [hb]
+  have e1 : (cx - 1) * f.gw + w * f.gw = (cx - 1 + w) * f.gw := by rw [Nat.add_mul]
+  have e2 : (cy - 1) * f.gh + c.offsetY = c.offsetY + (cy - 1) * f.gh := by omega
+  have e3 : (cy - 1) * f.gh + c.offsetY + h * f.gh = c.offsetY + (cy - 1 + h) * f.gh := by rw [Nat.add_mul]; omega
+  rw [e1, e3, e2]
+
+/-- **fill_clip (pixel)** — for all 32-bit `x y w h`: exactly the pixels of the cells of the
+clamped/clipped rectangle change, each to the packed background colour (only the colour bytes of
+a pixel: a 32-bit pixel keeps its fourth byte); padding bytes, the logo rows and everything else
+keep their contents; never a panic. -/
+theorem pix_fill_clip (c : VesaFb.Cons) (f : VesaFb.Font) (fb : Array UInt8) (ok : PixOk c f fb)
+    (x y w h fg bg : Nat) (hx : x < 4294967296) (hy : y < 4294967296)
+    (hw : w < 4294967296) (hh : h < 4294967296) (hbg : bg < 256) :
+    ∃ fb', VesaFb.fill c fb x y w h fg bg = some fb' ∧ fb'.size = fb.size ∧
+      ∀ i, i < fb.size → view8 fb' i = pixFill c f (view8 fb) x y w h bg i := by
+  obtain ⟨g1, g2, g3, g4, g5, g6, g7, g8⟩ := geom ok
+  obtain ⟨comp, hc1, hc2, hc3⟩ := pixelBytes_ok ok bg hbg
+  have hcx : ∀ x n, VesaFb.clampOrigin x n = clamp x n := fun _ _ => rfl
+  have rx := @clamp_range x c.cols ok.cols1
+  have ry := @clamp_range y c.rows ok.rows1
+  have hcols : c.cols < 4294967296 := by
+    have := Nat.le_mul_of_pos_right c.cols ok.gw1; omega
+  have hrows : c.rows < 4294967296 := by
+    have := Nat.le_mul_of_pos_right c.rows ok.gh1; omega
+  unfold VesaFb.fill
+  rw [ok.font]
+  simp only [hcx, hc1, pixFill, fillRect, hc2]
+  rw [pix_clip_eq rx hcols, pix_clip_eq ry hrows]
+  have ex : min (clamp x c.cols - 1 + w) c.cols = clamp x c.cols - 1 + min w (c.cols - clamp x c.cols + 1) := by omega
+  have ey : min (clamp y c.rows - 1 + h) c.rows = clamp y c.rows - 1 + min h (c.rows - clamp y c.rows + 1) := by omega
+  rw [ex, ey]
+  have aux := pix_fill_aux ok comp hc3 (clamp x c.cols) (clamp y c.rows) (min w (c.cols - clamp x c.cols + 1))
+    (min h (c.rows - clamp y c.rows + 1)) (by omega) (by omega)
+  by_cases h8 : c.bpp = 8
+  · rw [if_pos h8]
+    have hb1 : c.bytesPerPixel = 1 := by rcases bytes_cases ok with h | h | h | h | h <;> omega
+    rw [hb1, Nat.mul_one] at aux
+    exact aux
+  · rw [if_neg h8]
+    have hm : mul32 (mul32 (min w (c.cols - clamp x c.cols + 1)) f.gw) c.bytesPerPixel
+        = mul32 (min w (c.cols - clamp x c.cols + 1)) f.gw * c.bytesPerPixel := by
+      have hle : min w (c.cols - clamp x c.cols + 1) * f.gw ≤ c.cols * f.gw := Nat.mul_le_mul_right _ (by omega)
+      have hle2 : min w (c.cols - clamp x c.cols + 1) * f.gw * c.bytesPerPixel ≤ c.width * c.bytesPerPixel :=
+        Nat.mul_le_mul_right _ (by omega)
+      have := ok.pitch
+      have e : mul32 (min w (c.cols - clamp x c.cols + 1)) f.gw = min w (c.cols - clamp x c.cols + 1) * f.gw := by
+        unfold mul32; omega
+      rw [e]; unfold mul32; omega
+    rw [hm]
+    exact aux
+
 end Firefly.C19
